@@ -753,11 +753,13 @@ class HfProtocol(utils.EventEmitter):
 
             # Isolate the AT response code and parameters.
             raw_response = self.read_buffer[header + 2 : trailer]
+
+            # Consume the response bytes before parsing them, so that a malformed
+            # line is not parsed again when more data arrives.
+            self.read_buffer = self.read_buffer[trailer + 2 :]
+
             response = AtResponse.parse_from(raw_response)
             logger.debug(f"<<< {raw_response.decode()}")
-
-            # Consume the response bytes.
-            self.read_buffer = self.read_buffer[trailer + 2 :]
 
             # Forward the received code to the correct queue.
             if self.pending_command and (
@@ -1248,11 +1250,13 @@ class AgProtocol(utils.EventEmitter):
 
             # Isolate the AT response code and parameters.
             raw_command = self.read_buffer[:trailer]
+
+            # Consume the command bytes before parsing them, so that a malformed
+            # line is not parsed again when more data arrives.
+            self.read_buffer = self.read_buffer[trailer + 1 :]
+
             command = AtCommand.parse_from(raw_command)
             logger.debug(f"<<< {raw_command.decode()}")
-
-            # Consume the response bytes.
-            self.read_buffer = self.read_buffer[trailer + 1 :]
 
             if command.sub_code == AtCommand.SubCode.TEST:
                 handler_name = f'_on_{command.code.lower()}_test'
